@@ -537,6 +537,9 @@ PROPS["C10"] = {
              "alternating two contents under one name (schedule-random). Oracle everywhere (c10Observe): under the target name either no file (only if none before), or a "
              "file ReadSpec loads as exactly the previous Spec (bytes unchanged) or exactly the new Spec; no other entry under a Spec name; "
              "bystanders byte-identical; a cache refresh over the directory reports no error; success reported => new content present. "
+             "mountpoint unit: the previous Spec file is a single-file bind mount of itself, so the writer's rename fails with EBUSY; an "
+             "uncut write and writes cut at offset 0, at a drawn inner offset and beyond the end must each leave the complete previous or "
+             "the complete new content (skipped and labelled mount-unavailable where mount(2) is refused). "
              "Non-trivial iff the fault lies strictly after the first and not after the last directory-changing call (resp. the write is cut "
              "strictly inside the data) with a previous file present; distinct = distinct (Spec, encoding, initial state, call, fault)."),
     "assumptions": ["crash = death of the writer process; durability across power loss (unsynced page cache) is outside the statement",
@@ -550,12 +553,13 @@ PROPS["C10"] = {
         "technique": "property-based fault / crash-point enumeration at the system-call boundary (strace tampering, RLIMIT_FSIZE), inotify event-stream invariant, randomized reader stress; oracle = old-or-new-complete invariant",
     },
     "helpers": ("vhelper",),
-    "health_optional_if": {"env:strace-unavailable-skipped": ["mode:", "call:", "writer-killed"]},
+    "health_optional_if": {"env:strace-unavailable-skipped": ["mode:", "call:", "writer-killed"], "mount-unavailable": ["mount-point"]},
     "health": {"quick": {"mode:signal=SIGKILL": 100, "mode:error=ENOSPC": 100, "call:renameat2": 50, "call:write": 50, "call:openat": 50, "writer-killed": 100,
-                         "offset:partial": 300, "initial:old-file": 100, "stress": 2}},
+                         "offset:partial": 300, "initial:old-file": 100, "stress": 2, "mount-point": 100}},
     "units": [
         {"name": "syscalls", "mode": "rapid", "run": "TestC10Syscalls", "checks": {"quick": 96, "thorough": 2400}},
         {"name": "offsets", "mode": "rapid", "run": "TestC10WriteOffsets", "checks": {"quick": 48, "thorough": 480}, "env": {"VERIF_C10_OFFSET_STRIDE": {"quick": 7, "thorough": 1}}},
+        {"name": "mountpoint", "mode": "rapid", "run": "TestC10MountPoint", "shards": 2, "checks": {"quick": 64, "thorough": 1600}},
         {"name": "events", "mode": "rapid", "run": "TestC10Events", "checks": {"quick": 3200, "thorough": 64000}},
         {"name": "readers", "mode": "plain", "run": "TestC10Readers", "race": True, "env": {"VERIF_C10_STRESS_MS": {"quick": 4000, "thorough": 60000}}},
     ],
